@@ -411,13 +411,13 @@ def rule_cache(ck, rid="C13.R6"):
 
 
 def run(ck):
-    rule_validate_before_mutate(ck)
-    rule_set_pilot_table(ck)
-    rule_occupant(ck)
-    rule_exhaustive(ck)
-    rule_agreement(ck)
-    rule_finite_normalisation(ck)
-    rule_cache(ck)
+    ck.attempt(rule_validate_before_mutate)
+    ck.attempt(rule_set_pilot_table)
+    ck.attempt(rule_occupant)
+    ck.attempt(rule_exhaustive)
+    ck.attempt(rule_agreement)
+    ck.attempt(rule_finite_normalisation)
+    ck.attempt(rule_cache)
     # what is advertised stays truthful only if no scheduler can edit the network's cache through an object it was handed
     from .c05 import rule_escape
-    rule_escape(ck, rid="C13.R7")
+    ck.attempt(rule_escape, rid="C13.R7")
